@@ -40,8 +40,9 @@ def sample_cols(center):
 
 def gen_case(rng, tier, methods=('cycles', 'amp'), centers=('peak', 'trough'), kinds=None, max_len=480,
              fek_prob=0.7, extra=None, wide=False, f32=False, rs_prob=0.85, amp_wide=False, signal=None, exact_k=3,
-             other=True):
-    """One compute_features case.  wide=True additionally varies the band (off-band / narrow / wide), the type and
+             other=True, short=True):
+    """One compute_features case.  ~12 % of the cases (short_recording; short=False = not here) are cut down to a
+    recording only just longer than the longest filter of the analysis (`+short`: tables of 1-4 rows).  wide=True additionally varies the band (off-band / narrow / wide), the type and
     value of fs, the container of f_range, the sample dtype (int64; float32 with f32=True) and generates empty option
     dictionaries (gen.vary); amp_wide=True additionally generates, for the amplitude method, the detector's own
     `filter_kwargs` and a burst_fraction_threshold taken from a first run (`bft_pick`); the default keeps the original
@@ -130,11 +131,65 @@ def gen_case(rng, tier, methods=('cycles', 'amp'), centers=('peak', 'trough'), k
         c.update(extra)
     if other:
         other_method_options(c, s)
-    if exact_k is not None:
+    if not (short and short_recording(c, s)) and exact_k is not None:
         exact_length(c, s['period'], exact_k)
     c['key_order'] = key_order(c)
     c.update(mechanisms(c))
     return c
+
+
+SHORT_SHARE = 0.12
+
+
+def short_recording(c, s):
+    """The lower edge of the quantified class: for SHORT_SHARE of the cases (drawn from a generator seeded with the case
+    content, so that every other case stays as it was) the recording is cut down to a stretch only just longer than
+    the longest band-pass kernel the analysis designs (extrema filter, the 3-cycle envelope filter, the detector's
+    filter) -- 1 sample to one rhythm period more, at a random offset, so that the first cyclepoint can be of either
+    kind -- which gives tables of one to four rows.  Recorded in c['short'], kind tagged +short.  Returns True when
+    applied (such a case is not re-expressed by exact_length)."""
+    r = random.Random(canon_hash({k: v for k, v in c.items() if k not in ('key_order', 'history', 'exact', 'short') + MECH_FIELDS})
+                      + '/short')
+    if r.random() >= SHORT_SHARE:
+        return False
+    from neurodsp.filt.fir import compute_filter_length
+    n = len(c['sig'])
+    fs, band = c['fs'], c['f_range']
+
+    def taps(fk):
+        fk = fk or {}
+        ns = fk.get('n_seconds')
+        try:
+            return int(compute_filter_length(fs, 'bandpass', band[0], band[1], n_seconds=ns,
+                                             n_cycles=None if ns is not None else fk.get('n_cycles', 3)))
+        except Exception:
+            return None
+    tight = False
+    if not s.get('band') and r.random() < 0.5:
+        # low cut-off close to the rhythm: the 3-cycle kernel is then only ~3.3 rhythm periods long (tables of 1-2 rows)
+        f0 = fs / float(s['period'])
+        band = [round(0.9 * f0, 4), round(1.45 * f0, 4)]
+        tight = True
+    lens = [taps(None), taps((c.get('fek') or {}).get('filter_kwargs'))]
+    if c['method'] == 'amp':
+        lens.append(taps((c.get('bk') or {}).get('filter_kwargs')))
+    if any(x is None for x in lens):
+        return False
+    period = max(2, int(round(s['period'])))
+    L = max(lens) + r.choice([1, 2, 3, period // 5, period // 4, period // 3] if tight else
+                             [1, 2, 3, period // 3, period // 2, period, period + period // 2])
+    if L >= n:
+        return False
+    if tight:
+        c['f_range'] = band
+    off = r.randrange(0, n - L + 1)
+    c['sig'] = c['sig'][off:off + L]
+    fek = c.get('fek')
+    if fek and fek.get('boundary') == n // 10:
+        fek['boundary'] = L // 10
+    c['short'] = {'samples': L, 'offset': off, 'longest_kernel': max(lens), 'tight_band': tight}
+    c['kind'] += '+short'
+    return True
 
 
 OTHER_SHARE = 0.15
@@ -970,7 +1025,7 @@ def gen_shape_case(rng, tier):
     """compute_shape_features called directly with its own n_cycles argument (default extrema filter when
     find_extrema_kwargs is None, and length of the band-amplitude filter)."""
     s = gen.signal(rng, kind=None, max_len=480)            # (drawn here, as gen_case would, to know the rhythm's period)
-    c = gen_case(rng, tier, methods=('cycles',), fek_prob=0.5, wide=True, signal=s, exact_k=None, other=False)
+    c = gen_case(rng, tier, methods=('cycles',), fek_prob=0.5, wide=True, signal=s, exact_k=None, other=False, short=False)
     c['kind'] = 'shape/' + c['kind'].split('/', 2)[2]
     c.update(shape_only=True, n_cycles=rng.choice([2, 3, 5]), thr=None, bk=None, return_samples=True)
     if exact_length(c, s['period'], c['n_cycles']):
@@ -1115,8 +1170,8 @@ def coq_case(c, o):
     goes through the same runner with an all-False detector mask, whose burst cells table_to_rows has filled in.
     A harness-level difference (harness_diff) is sent as an implementation result that no model result equals, so that
     it surfaces as a model/implementation mismatch (reported without a failing input for the property)."""
-    if 'skip' in o or 'ref' not in o or c.get('dtype') == 'float32':
-        return None
+    if 'skip' in o or 'ref' not in o or c.get('dtype') == 'float32' or c.get('long'):
+        return None           # `long`: recordings of 10 000+ samples are judged by the statement oracle alone
     sig = gen.unhexlist(c['sig'])
     rs = resolved(c, o)
     rf = o['ref']
